@@ -239,7 +239,7 @@ class Engine:
                     base_len = head_keylen[b] = min(len(k) for k in sts)
                 merged = {}
                 for key, s in sts.items():
-                    k2 = key[:base_len]
+                    k2 = key[:base_len] + tuple(x for x in key[base_len:] if x[0] == "unroll")
                     s.key = k2
                     if k2 in merged:
                         j = self.M.join_states(merged[k2], s, "%s:bb%d" % (fr.fid, b))
